@@ -333,7 +333,7 @@ def aggregate(results, out=None):
         for k, v in res.get("observations", {}).items():
             o = out.observations.setdefault(k, {"count": 0, "sample": v.get("sample", "")})
             o["count"] += v.get("count", 0)
-        if r["rc"] not in (0,) and res.get("status") not in ("hang", "inconclusive"):
+        if r["rc"] not in (0,) and res.get("status") not in ("hang", "inconclusive", "crash", "violation"):
             out.inconclusive.append("%s %s: exit code %s (status %s); stderr tail: %s" % (
                 job.build, job.tag, r["rc"], res.get("status"), r["stderr"][-600:]))
     return out
